@@ -59,16 +59,14 @@ def components(version, strict=True):
     versions_pattern = _versions_pattern(strict)
     matches = versions_pattern.match(version)
     if matches:
-        if matches.start(4) > 0:
-            return int(matches.group(1)), int(matches.group(2)), int(matches.group(3)), matches.group(4)
-        elif matches.start(3) > 0:
-            return int(matches.group(1)), int(matches.group(2)), int(matches.group(3)), None
-        elif matches.start(2) > 0:
-            return int(matches.group(1)), int(matches.group(2)), None, None
-        elif matches.start(1) > 0:
-            return int(matches.group(1)), None, None, None
-        else:
-            return int(version), None, None, None
+        # with the non-strict pattern every group after the major is optional on its own, e.g. "7-dev" has a suffix but no minor
+        major, minor, patch, suffix = matches.groups()
+        return (
+            int(major),
+            int(minor) if minor is not None else None,
+            int(patch) if patch is not None else None,
+            suffix,
+        )
     raise exceptions.InvalidSyntax("version string '%s' does not conform to pattern '%s'" % (version, versions_pattern.pattern))
 
 
